@@ -238,7 +238,7 @@ def gen_request(rng, k, *, mode="regular", host=b"example.com", hostile_p=0.6, a
     }
 
 
-def gen_response(rng, tag: bytes, req_method: str, hostile_p=0.5):
+def gen_response(rng, tag: bytes, req_method: str, hostile_p=0.5, allow_extra_after=True):
     """Scripted origin response for the request carrying `tag`. Returns dict(raw, feats, close_after, status, body)."""
     feats = set()
     hostile = rng.random() < hostile_p
@@ -319,7 +319,7 @@ def gen_response(rng, tag: bytes, req_method: str, hostile_p=0.5):
             wire = body[: len(body) // 2]
             close_after = True
             feats.add(f)
-        elif f == "r-extra-after" and framing in ("cl", "chunked"):
+        elif f == "r-extra-after" and framing in ("cl", "chunked") and allow_extra_after:
             wire = wire + b"EXTRA-" + tag
             feats.add(f)
     head = version + b" %d " % status + reason + b"\r\n"
